@@ -463,7 +463,7 @@ fn cases(tier: Tier) -> Vec<Case> {
         SLOW_START.with(|t| t.set(false));
         v.extend(extra.into_iter().enumerate().filter(|(i, _)| i % step == 3 % step).map(|(_, c)| c));
     }
-    let nv = crate::progscene::Variant { generous_timeout: true, recreate: true, builder_order: 0 };
+    let nv = crate::progscene::Variant { generous_timeout: true, recreate: true, builder_order: 0, owner_dropped: false };
     let n = crate::progscene::with_variant(nv, || plain_cases(tier));
     let step = if tier == Tier::Thorough { 2 } else { 4 };
     v.extend(n.into_iter().enumerate().filter(|(i, _)| i % step == 1).map(|(_, mut c)| {
